@@ -80,7 +80,7 @@ func run(c *vf.Ctx) {
 		replay(c)
 		return
 	}
-	c.SetRule("evaluations = oracle verdicts: one per executed valuenotifier history step that is a Wait (sequential enumeration: every history up to the tier's length over {Listener(v),Notify(v),Deregister(l),Wait(l)}, 2 values, <=3 listeners per value, each history executed on a fresh Notifier and only its last step judged, so every (history, step) pair is judged once), one per gated schedule, one per Wait of a concurrent notifier round, one per (Trigger, hook) pair of an event round, one per promise callback. distinct_nontrivial = distinct sequential histories whose judged step is a Wait on a listener that was created after a Notify of the same value (the re-created-listener pattern the repository test never builds) plus distinct concurrent round configurations (kind/goroutine counts/build) in which at least one pair of constrained operations overlapped on the logical clock")
+	c.SetRule("evaluations = oracle verdicts: one per executed valuenotifier history step that is a Wait (sequential enumeration: every history up to the tier's length over {Listener(v),Notify(v),Deregister(l),Wait(l)}, 2 values, <=3 listeners per value, each history executed on a fresh Notifier and only its last step judged, so every (history, step) pair is judged once), one per gated schedule, one per Wait of a concurrent notifier round, one per (Trigger, hook) pair of an event round (concurrent rounds and the deterministic single-goroutine scenarios in which a hook's callback unhooks itself / its successor / a later / an earlier hook, hooks a new one or re-links a linked event while the Trigger is walking the hooks – all combinations for 2..5 hooks, Event/Event1/Event2, with and without a hook whose WithMaxTriggerCount is exhausted in that Trigger), one per promise callback. distinct_nontrivial = distinct sequential histories whose judged step is a Wait on a listener that was created after a Notify of the same value (the re-created-listener pattern the repository test never builds) plus distinct concurrent round configurations (kind/goroutine counts/build) in which at least one pair of constrained operations overlapped on the logical clock")
 	maxLen := c.Pick(7, 8)
 	shards := 16
 	workers := runtime.NumCPU()
@@ -120,7 +120,7 @@ func run(c *vf.Ctx) {
 			// a crashed process cannot have delivered its callbacks; attribute it only if the
 			// crash stack is inside the three packages
 			if res.Fatal != "" && touches(res.Stderr) {
-				c.Violation("crash/"+o.Name+"/"+crashClass(res.Fatal), "child "+label+" died: "+res.Fatal+" (last mark "+res.LastMark+")",
+				c.Violation("crash/"+o.Name, "child "+label+" died: "+res.Fatal+" (last mark "+res.LastMark+")",
 					replayRec{Kind: "conc", Child: o.Name, Seed: c.Seed, Race: o.Race, Detail: tail(res.Stderr, 4000)})
 			} else {
 				c.Inconclusive(fmt.Sprintf("child %s exited with %d %s (stderr %s)", label, res.ExitCode, res.Fatal, res.StderrPath))
@@ -144,6 +144,7 @@ func run(c *vf.Ctx) {
 	c.Require("ev_trigger_hook_pairs_overlapping", 200)
 	c.Require("ev_link_triggers_overlapping_linkto", 20)
 	c.Require("ev_max_rounds", 50)
+	c.Require("ev_reentrant_scenarios", 20000)
 	c.Require("pr_callbacks_registered_during_trigger", 100)
 	c.Require("race_children_run", 3)
 	c.Assume("sync/atomic counter used as logical clock is linearizable; a goroutine shown in state `select` inside valuenotifier.(*Listener).Wait by runtime.Stack(all) is parked; the Go race detector reports only real races")
@@ -163,21 +164,6 @@ func touches(s string) bool {
 		}
 	}
 	return false
-}
-
-func crashClass(fatal string) string {
-	f := strings.ToLower(fatal)
-	switch {
-	case strings.Contains(f, "concurrent map"):
-		return "concurrent-map-access"
-	case strings.Contains(f, "nil pointer"), strings.Contains(f, "nil map"):
-		return "nil-dereference"
-	case strings.Contains(f, "close of closed channel"):
-		return "double-close"
-	case strings.Contains(f, "deadlock"):
-		return "deadlock"
-	}
-	return "other"
 }
 
 // ---------------------------------------------------------------- child dispatch
@@ -225,6 +211,9 @@ func replay(c *vf.Ctx) {
 	switch r.Kind {
 	case "vn-seq":
 		x := newSeqExec()
+		if !x.blindCheck(c) {
+			return
+		}
 		out := x.run(r.History)
 		rep := newReporter(c)
 		vnJudge(c, rep, r.History, out, false)
